@@ -398,3 +398,59 @@ V("C10", "nowrap-ignored", I,
 V("C10", "benign-gt-form", C,
   ("                if input_value < old_value:", "                if old_value > input_value:"),
   "silent")
+
+# ----------------------------------------------------------------- C06
+V("C06", "defect-F1-returns", L,
+  ("            st = st[st.rfind(b')') + 2 :]", "            st = st[st.find(b')') + 2 :]"),
+  "fires:C06.R1")
+V("C06", "defect-F2-returns", L,
+  ("_uids_re=re.compile(br'^Uid:\\t(\\d+)\\t(\\d+)\\t(\\d+)', re.MULTILINE),",
+   "_uids_re=re.compile(br'Uid:\\t(\\d+)\\t(\\d+)\\t(\\d+)'),"), "fires:C06.R5")
+V("C06", "ppid-map-first-paren", L,
+  ("            rpar = data.rfind(b')')\n            dset = data[rpar + 2 :].split()",
+   "            rpar = data.find(b')')\n            dset = data[rpar + 2 :].split()"), "fires:C06.R1")
+V("C06", "utime-stime-swapped", L,
+  ("        ret['utime'] = fields[11]\n        ret['stime'] = fields[12]",
+   "        ret['utime'] = fields[12]\n        ret['stime'] = fields[11]"), "fires:C06.R2")
+V("C06", "cpu-times-children-swapped", L,
+  ("        return pcputimes(utime, stime, children_utime, children_stime, iowait)",
+   "        return pcputimes(utime, stime, children_stime, children_utime, iowait)"), "fires:C06.R2")
+V("C06", "ppid-off-by-one", L,
+  ("        ret['ppid'] = fields[1]", "        ret['ppid'] = fields[2]"), "fires:C06.R2")
+V("C06", "starttime-wrong-col", L,
+  ("        ret['create_time'] = fields[19]", "        ret['create_time'] = fields[18]"), "fires:C06.R2")
+V("C06", "cpu-num-wrong-col", L,
+  ("        ret['cpu_num'] = fields[36]", "        ret['cpu_num'] = fields[35]"), "fires:C06.R2")
+V("C06", "thread-stime-col", L,
+  ("            stime = float(values[12]) / CLOCK_TICKS\n            ntuple = _common.pthread",
+   "            stime = float(values[13]) / CLOCK_TICKS\n            ntuple = _common.pthread"), "fires:C06.R2")
+V("C06", "rpar-offset", L,
+  ("        fields = data[rpar + 2 :].split()", "        fields = data[rpar + 1 :].split()"), "silent")
+V("C06", "ticks-not-divided", L,
+  ("        iowait = float(values['blkio_ticks']) / CLOCK_TICKS", "        iowait = float(values['blkio_ticks'])"),
+  "fires:C06.R3")
+V("C06", "ticks-divided-by-100", L,
+  ("        utime = float(values['utime']) / CLOCK_TICKS\n        stime = float(values['stime']) / CLOCK_TICKS\n        children_utime",
+   "        utime = float(values['utime']) / 100\n        stime = float(values['stime']) / CLOCK_TICKS\n        children_utime"),
+  "fires:C06.R3")
+V("C06", "create-time-boot-not-added", L,
+  ("        return (ctime / CLOCK_TICKS) + bt", "        return (ctime / CLOCK_TICKS)"), "fires:C06.R3")
+V("C06", "create-time-ticks-plus-boot", L,
+  ("        return (ctime / CLOCK_TICKS) + bt", "        return (ctime + bt) / CLOCK_TICKS"), "fires:C06.R3")
+V("C06", "state-letter-dropped", L,
+  ("    \"I\": _common.STATUS_IDLE,\n", ""), "fires:C06.R4")
+V("C06", "state-letter-wrong", L,
+  ("    \"t\": _common.STATUS_TRACING_STOP,", "    \"t\": _common.STATUS_STOPPED,"), "fires:C06.R4")
+V("C06", "name-first-rpar", L,
+  ("        name = data[data.find(b'(') + 1 : rpar]", "        name = data[data.find(b'(') + 1 : data.find(b')')]"),
+  "fires:C06.R7")
+V("C06", "tty-not-int", L,
+  ("        tty_nr = int(self._parse_stat_file()['ttynr'])", "        tty_nr = self._parse_stat_file()['ttynr']"),
+  "fires:C06.R6")
+V("C06", "benign-rename-keys", L,
+  [("        ret['utime'] = fields[11]", "        ret['user_ticks'] = fields[11]"),
+   ("        utime = float(values['utime']) / CLOCK_TICKS", "        utime = float(values['user_ticks']) / CLOCK_TICKS")],
+  "silent")
+V("C06", "benign-nl-anchor", L,
+  ("_gids_re=re.compile(br'^Gid:\\t(\\d+)\\t(\\d+)\\t(\\d+)', re.MULTILINE),",
+   "_gids_re=re.compile(br'\\nGid:\\t(\\d+)\\t(\\d+)\\t(\\d+)'),"), "silent")
